@@ -223,6 +223,22 @@ func init() {
 		sym:  func(e *Exec, name string, t types.Type) Value { return &ModelObj{Kind: "router"} },
 	}
 	models["(*github.com/cosmos/cosmos-sdk/baseapp.MsgServiceRouter).Handler"] = func(e *Exec, a []Value) []Value {
+		// a message the harness registered with verifOnRoute is routed to the handler given with it (the module's
+		// own message server: hook transactions may carry the module's own messages)
+		if rm, ok := e.extra["route.msg"]; ok {
+			if riv, isI := rm.(IfaceV); isI {
+				if miv, isM := a[1].(IfaceV); isM {
+					if rp, ok1 := riv.V.(Ptr); ok1 {
+						if mp, ok2 := miv.V.(Ptr); ok2 && rp.O == mp.O && rp.O != nil {
+							h := e.extra["route.handler"].(Value)
+							return []Value{&FuncV{Name: "routedHandler", Native: func(e *Exec, args []Value) []Value {
+								return e.callValue(h, args)
+							}}}
+						}
+					}
+				}
+			}
+		}
 		n := e.stubCount("router.Handler")
 		if e.decideBool(e.fresh(fmt.Sprintf("router.%d.unroutable", n), BoolSort)) {
 			return []Value{(*FuncV)(nil)}
@@ -234,23 +250,31 @@ func init() {
 	}
 	funcModels["txDecoder"] = func(e *Exec, name string) Value {
 		return &FuncV{Name: "txDecoder", Native: func(e *Exec, args []Value) []Value {
-			if e.decideBool(e.fresh("txDecoder.fails", BoolSort)) {
+			clean := e.cfg.Opts["hook.clean"] == 1 // bound: the hook transaction decodes, passes the ante chain, has exactly hookmsgs messages
+			if !clean && e.decideBool(e.fresh("txDecoder.fails", BoolSort)) {
 				return []Value{IfaceV{}, errIface("", StrLit("tx parse error"))}
 			}
 			nm := e.cfg.Opts["hookmsgs"]
 			if nm == 0 {
 				nm = 1
 			}
-			tag := e.fresh("tx.nmsgs", IntSort)
-			alts := make([]*Term, nm+1)
-			for i := range alts {
-				alts[i] = Eq(tag, IntI(int64(i)))
+			k := nm
+			if !clean {
+				tag := e.fresh("tx.nmsgs", IntSort)
+				alts := make([]*Term, nm+1)
+				for i := range alts {
+					alts[i] = Eq(tag, IntI(int64(i)))
+				}
+				alts[nm] = Not(Or(alts[:nm]...))
+				k = e.decide(alts)
+				e.assertPC(Eq(tag, IntI(int64(k))))
 			}
-			alts[nm] = Not(Or(alts[:nm]...))
-			k := e.decide(alts)
-			e.assertPC(Eq(tag, IntI(int64(k))))
 			arr := &ArrayV{E: make([]Value, k)}
 			for i := range arr.E {
+				if rm, ok := e.extra["route.msg"]; ok && i == 0 && (e.cfg.Opts["hook.clean"] == 1 || e.decideBool(e.fresh("tx.carriesModuleMsg", BoolSort))) {
+					arr.E[i] = rm.(Value) // the hook transaction carries one of the module's own messages
+					continue
+				}
 				arr.E[i] = IfaceV{V: e.stubMsg(fmt.Sprintf("tx.msg%d", i))}
 			}
 			msgs := &SliceV{A: e.newObj(arr, "txmsgs"), Len: k, Cap: k}
@@ -264,6 +288,10 @@ func init() {
 	funcModels["decorators"] = func(e *Exec, name string) Value {
 		return &FuncV{Name: "decorators", Native: func(e *Exec, args []Value) []Value {
 			c := ctxOf(e, args[0])
+			if e.cfg.Opts["hook.clean"] == 1 {
+				c.St.Ghost["signerSequence"] = e.fresh("ante.signerSequence", BV(64))
+				return []Value{c, nilErr()}
+			}
 			switch e.stubOutcome("decorators") {
 			case 1:
 				return []Value{c, errIface("", StrLit("ante handler error"))}
@@ -322,15 +350,22 @@ func init() {
 		}
 		return []Value{errIface("", StrLit("invalid message"))}
 	}
-	models["(*github.com/cosmos/cosmos-sdk/types.Result).GetEvents"] = func(e *Exec, a []Value) []Value {
-		return []Value{&SliceV{Nil: true}}
-	}
 }
 
 func init() {
 	intrinsics["verifInnerMsg"] = func(e *Exec, fn *ssa.Function, a []Value) []Value {
 		m := e.stubMsg(e.fresh(argStr(e, a[0]), Sort{K: SUn, Name: "MsgName"}).Str)
 		return []Value{e.newAny(IfaceV{V: m})}
+	}
+}
+
+func init() {
+	// verifOnRoute(msg sdk.Msg, h func(context.Context, sdk.Msg) (*sdk.Result, error)): hook transactions may carry
+	// this (real) message, and the router dispatches it to h
+	intrinsics["verifOnRoute"] = func(e *Exec, fn *ssa.Function, a []Value) []Value {
+		e.extra["route.msg"] = a[0]
+		e.extra["route.handler"] = a[1]
+		return nil
 	}
 }
 
@@ -387,7 +422,8 @@ func (e *Exec) stubHandler(n int, c *CtxV) []Value {
 	e.setBalance(c.St, ha, hd, nb)
 	c.St.Sup = sto(c.St.Sup, hd, ns)
 	c.St.Ghost[fmt.Sprintf("hookEffect%d", n)] = e.fresh(fmt.Sprintf("hook%d.marker", n), BV(64))
-	c.Em.Events = append(c.Em.Events, e.stubEvent(n))
+	// as the SDK's MsgServiceRouter does, the handler runs on a fresh event manager and hands its events back in
+	// the Result: they reach the caller's context only if the caller forwards them
 	switch e.stubOutcome("handler") {
 	case 1:
 		return []Value{nilPtr(), errIface("", StrLit("handler error"))}
@@ -395,7 +431,15 @@ func (e *Exec) stubHandler(n int, c *CtxV) []Value {
 		e.goPanicStr("handler panic")
 	}
 	rt := e.W.typeByName("github.com/cosmos/cosmos-sdk/types", "Result")
-	return []Value{Ptr{O: e.newObj(e.zero(rt), "result")}, nilErr()}
+	res := e.zero(rt).(*StructV)
+	if st, ok := rt.Underlying().(*types.Struct); ok {
+		for i := 0; i < st.NumFields(); i++ {
+			if st.Field(i).Name() == "Events" {
+				res.F[i] = &SliceV{A: e.newObj(&ArrayV{E: []Value{e.stubEvent(n)}}, "resultEvents"), Len: 1, Cap: 1}
+			}
+		}
+	}
+	return []Value{Ptr{O: e.newObj(res, "result")}, nilErr()}
 }
 
 func (e *Exec) stubEvent(n int) Value {
